@@ -9,6 +9,7 @@ pub mod txgen;
 pub mod c06;
 pub mod c07;
 pub mod c18;
+pub mod c19;
 pub mod c09;
 pub mod c09b;
 pub mod c11;
@@ -19,7 +20,7 @@ pub mod c16;
 use crate::engine::{Ctx, Tier};
 use serde_json::Value;
 
-pub const ALL: &[&str] = &["C01", "C04", "C05", "C06", "C07", "C09", "C11", "C15", "C16", "C18"];
+pub const ALL: &[&str] = &["C01", "C04", "C05", "C06", "C07", "C09", "C11", "C15", "C16", "C18", "C19"];
 
 pub fn run(id: &str, tier: Tier, seed: u64) -> Option<i32> {
     macro_rules! go {
@@ -40,6 +41,7 @@ pub fn run(id: &str, tier: Tier, seed: u64) -> Option<i32> {
         "C15" => go!(c15, "C15"),
         "C16" => go!(c16, "C16"),
         "C18" => go!(c18, "C18"),
+        "C19" => go!(c19, "C19"),
         _ => None,
     }
 }
@@ -56,6 +58,7 @@ pub fn replay(id: &str, v: &Value) -> Option<i32> {
         "C15" => c15::replay(v),
         "C16" => c16::replay(v),
         "C18" => c18::replay(v),
+        "C19" => c19::replay(v),
         _ => None,
     }
 }
